@@ -322,7 +322,25 @@ fn planes_bits(image: &JxlImage, k: usize) -> Result<Vec<Vec<u32>>, String> {
 pub fn run(args: &Args) -> i32 {
     let thorough = args.thorough();
     run_cases(args, 0xC20, |case| {
-        let mut rng = case.rng.fork();
+        // A stall (no protocol event for 30 s while every caller is parked by the baton) is a wall-clock
+        // observation and by itself inconclusive. The case is deterministic, so it is run again from
+        // the same seed: stalling a second time in the same schedule with the same thread states is a
+        // reproduced lost wake-up / wedge and is reported.
+        let rng0 = case.rng.clone();
+        if let Some(d1) = body(case, rng0.clone(), thorough) {
+            match body(case, rng0, thorough) {
+                Some(d2) if d2 == d1 => case.violation("stall-reproduced", format!("callers stop making progress at the same point in two runs of the same schedule: {d1}")),
+                Some(_) => case.inconclusive("scheduler stalled twice at different points"),
+                None => case.inconclusive("scheduler stalled once (wall-clock watchdog), not reproduced"),
+            }
+        }
+    })
+}
+
+/// One deterministic execution of a case; `Some(description)` when a schedule stalled.
+fn body(case: &mut Case, mut rng0: jxlgen::rng::Rng, thorough: bool) -> Option<String> {
+    {
+        let mut rng = rng0.fork();
         // scenario image: multi-frame with reference chains
         let opts = jxlgen::anim::AnimOpts { max_frames: 5, max_dim: 20, max_extra: 2, ..Default::default() };
         let mut got = None;
@@ -336,7 +354,7 @@ pub fn run(args: &Args) -> i32 {
         }
         let Some(anim) = got else {
             case.inconclusive("generator gave up");
-            return;
+            return None;
         };
         case.set_input(&anim.bytes);
         // reference (single caller)
@@ -344,7 +362,7 @@ pub fn run(args: &Args) -> i32 {
             Ok(i) => i,
             Err(e) => {
                 case.violation("open-err", format!("{e}"));
-                return;
+                return None;
             }
         };
         let nk = ref_img.num_loaded_keyframes();
@@ -354,7 +372,7 @@ pub fn run(args: &Args) -> i32 {
                 Ok(b) => reference.push(b),
                 Err(e) => {
                     case.violation("reference-render-err", format!("{e}"));
-                    return;
+                    return None;
                 }
             }
         }
@@ -372,7 +390,7 @@ pub fn run(args: &Args) -> i32 {
                 Ok(i) => i,
                 Err(e) => {
                     case.violation("open-err", format!("{e}"));
-                    return;
+                    return None;
                 }
             };
             if with_fault {
@@ -520,17 +538,17 @@ pub fn run(args: &Args) -> i32 {
                         "deadlock",
                         format!("{}; scripts {:?} fault={with_fault} schedule #{sched_i} strategy {strategy}; trace tail {:?} [{}]", dl.unwrap_or_default(), scripts, tail(&trace), anim.desc),
                     );
-                    return;
+                    return None;
                 }
                 "stall" => {
-                    case.inconclusive("scheduler stalled (wall-clock watchdog)");
-                    return;
+                    let st: Vec<String> = shared.m.lock().unwrap().threads.iter().enumerate().map(|(i, (_, st))| format!("T{i}:{st:?}")).collect();
+                    return Some(format!("schedule #{sched_i} strategy {strategy} scripts {:?} fault={with_fault}: {} [{}]", scripts, st.join(" "), anim.desc));
                 }
                 _ => {}
             }
             if let Some(o) = overlap {
                 case.violation("overlapping-renders", format!("{o}; scripts {:?}; trace tail {:?} [{}]", scripts, tail(&trace), anim.desc));
-                return;
+                return None;
             }
             // (A frame may legitimately be rendered again after a dependent frame consumed and
             // reset it; the property only forbids overlapping executions, checked above.)
@@ -542,19 +560,19 @@ pub fn run(args: &Args) -> i32 {
                     Ok(b) => {
                         if *b != reference[*k] {
                             case.violation("result-differs", format!("caller {ti} keyframe {k}: picture differs from the single-caller render; scripts {:?} fault={with_fault}; trace tail {:?} [{}]", scripts, tail(&trace), anim.desc));
-                            return;
+                            return None;
                         }
                         case.obs("ok_results", 1);
                     }
                     Err(e) if e.starts_with("PANIC") => {
                         case.violation("panic", format!("caller {ti} keyframe {k}: {e} [{}]", anim.desc));
-                        return;
+                        return None;
                     }
                     Err(e) => {
                         if !with_fault {
                             let sig = if e.contains("frame data is incomplete") { "spurious-error:IncompleteFrame" } else { "unexpected-error" };
                             case.violation(sig, format!("caller {ti} keyframe {k}: {e} without any injected fault; scripts {:?}; trace tail {:?} [{}]", scripts, tail(&trace), anim.desc));
-                            return;
+                            return None;
                         }
                         case.obs("err_results_under_fault", 1);
                     }
@@ -566,5 +584,6 @@ pub fn run(args: &Args) -> i32 {
         let types: String = anim.frames.iter().map(|f| match f.fh.frame_type { jxlgen::headers::FrameType::Regular => 'R', jxlgen::headers::FrameType::ReferenceOnly => 'F', jxlgen::headers::FrameType::SkipProgressive => 'S', _ => 'L' }).collect();
         case.sig(format!("{types}|t{n_threads}|fault{}|k{}", with_fault as u8, nk.min(3)), nontrivial);
         case.sample(format!("{{\"anim\":{},\"threads\":{n_threads},\"fault\":{with_fault},\"schedules\":{schedules},\"distinct_schedules\":{},\"protocol_states\":{}}}", json_str(&anim.desc), distinct.len(), states.len()));
-    })
+        None
+    }
 }
